@@ -10,11 +10,11 @@ Notation Cc := (C (T:=T)).
 Variable d : nat.
 
 (* gradient._derivative_integral for a list of frequencies, flattened in the order [o][p][q][m][n] *)
-Definition model_di (th3 : T * T * T) (om ev : list T) (dt : T) : list Cc :=
+Definition model_di (th3 : T * T) (om ev : list T) (dt : T) : list Cc :=
   List.concat (map (fun w => List.concat (List.concat (List.concat (deriv_integral Op d th3 w ev dt)))) om).
 
 (* calculate_derivative_of_control_matrix_from_scratch on the selected operators: [a][h][s][o][k] *)
-Definition model_cd (thr : T) (th3 : T * T * T) (thrA : T) (evs : list (list T)) (Vs : list (Mat (T:=T))) (om : list T)
+Definition model_cd (thr : T) (th3 : T * T) (thrA : T) (evs : list (list T)) (Vs : list (Mat (T:=T))) (om : list T)
            (bs ns cs : list (Mat (T:=T))) (nc : list (list T)) (dts : list T)
            (n_idx c_idx : list nat) (use_ncd : bool) (ncd : list (list (list T))) :=
   ctrlmat_deriv Op d thr th3 thrA evs Vs (propagators Op d evs Vs dts) om bs
@@ -24,7 +24,7 @@ Definition flat5 {A} (x : list (list (list (list (list A))))) : list A :=
 Definition flat4 {A} (x : list (list (list (list A)))) : list A := List.concat (List.concat (List.concat x)).
 
 (* PulseSequence.get_filter_function_derivative: [a][s][h][o] *)
-Definition model_ffd (thr : T) (th3 : T * T * T) (thrA : T) (evs : list (list T)) (Vs : list (Mat (T:=T))) (om : list T)
+Definition model_ffd (thr : T) (th3 : T * T) (thrA : T) (evs : list (list T)) (Vs : list (Mat (T:=T))) (om : list T)
            (bs ns cs : list (Mat (T:=T))) (nc : list (list T)) (dts : list T)
            (n_idx c_idx : list nat) (use_ncd : bool) (ncd : list (list (list T))) : list (list (list (list T))) :=
   let Qs := propagators Op d evs Vs dts in
@@ -33,13 +33,13 @@ Definition model_ffd (thr : T) (th3 : T * T * T) (thrA : T) (evs : list (list T)
   filter_function_derivative Op (List.length n_idx) (List.length c_idx) (List.length dts) (List.length bs) (List.length om) Bm CD.
 
 (* gradient.infidelity_derivative with an already broadcast spectrum [a][o]: [a][s][h] *)
-Definition model_infid (thr : T) (th3 : T * T * T) (thrA : T) (evs : list (list T)) (Vs : list (Mat (T:=T))) (om : list T)
+Definition model_infid (thr : T) (th3 : T * T) (thrA : T) (evs : list (list T)) (Vs : list (Mat (T:=T))) (om : list T)
            (bs ns cs : list (Mat (T:=T))) (nc : list (list T)) (dts : list T)
            (n_idx c_idx : list nat) (use_ncd : bool) (ncd : list (list (list T))) (spec : list (list T)) :=
   infidelity_derivative Op d thr om spec (model_ffd thr th3 thrA evs Vs om bs ns cs nc dts n_idx c_idx use_ncd ncd)
     use_ncd ncd (select [] n_idx ns) (select [] n_idx nc) dts (times Op dts).
 (* all three observables with the shared intermediate results computed once: ((CD, FD), ID) *)
-Definition model_all (thr : T) (th3 : T * T * T) (thrA : T) (evs : list (list T)) (Vs : list (Mat (T:=T))) (om : list T)
+Definition model_all (thr : T) (th3 : T * T) (thrA : T) (evs : list (list T)) (Vs : list (Mat (T:=T))) (om : list T)
            (bs ns cs : list (Mat (T:=T))) (nc : list (list T)) (dts : list T)
            (n_idx c_idx : list nat) (use_ncd : bool) (ncd : list (list (list T))) (spec : list (list T)) :=
   let Qs := propagators Op d evs Vs dts in
